@@ -55,12 +55,12 @@ fn fingerprint(t: &[Vec<u128>]) -> u64 {
 
 /// fingerprints of the public constant tables at the pinned commit (an edited constant is reported)
 const PINNED: [(&str, u64); 6] = [
-    ("Rp64_256.MDS", 0),
-    ("Rp64_256.ARK1", 0),
-    ("Rp64_256.ARK2", 0),
-    ("RpJive64_256.MDS", 0),
-    ("RpJive64_256.ARK1", 0),
-    ("RpJive64_256.ARK2", 0),
+    ("Rp64_256.MDS", 0x4426aa9fb05d5c25),
+    ("Rp64_256.ARK1", 0xdb3950d4cf479dbf),
+    ("Rp64_256.ARK2", 0xf52e7f6c7acd7a8a),
+    ("RpJive64_256.MDS", 0xe0b50e45f31cf325),
+    ("RpJive64_256.ARK1", 0x774d4605ce6ff022),
+    ("RpJive64_256.ARK2", 0x894786ac77b454ee),
 ];
 
 fn state_of<const W: usize>(idx: usize, alpha: &[u64]) -> ([B64; W], Vec<u128>) {
